@@ -103,6 +103,15 @@ impl RequestHandler<References> for FindReferencesHandler {
                 false => def.usages(),
             })
             .map(|dl| to_location(analysis.look_up(dl.span)))
+            // (a symbol in the body of a macro, a loop or a file that is imported twice exists once per invocation,
+            // iteration or import, at one and the same place in the source)
+            .unique_by(|location| {
+                (
+                    location.uri.to_string(),
+                    (location.range.start.line, location.range.start.character),
+                    (location.range.end.line, location.range.end.character),
+                )
+            })
             .collect_vec();
 
         Ok(Some(locations))
@@ -141,6 +150,12 @@ impl RequestHandler<DocumentHighlightRequest> for DocumentHighlightRequestHandle
                         }
                     })
                     .collect_vec()
+            })
+            .unique_by(|highlight| {
+                (
+                    (highlight.range.start.line, highlight.range.start.character),
+                    (highlight.range.end.line, highlight.range.end.character),
+                )
             })
             .collect();
 
